@@ -13,7 +13,6 @@ use dstsim::{Stream, keyed};
 use ldpc_toolbox::decoder::factory::{DecoderFactory, DecoderImplementation};
 use ldpc_toolbox::encoder::Encoder;
 use ldpc_toolbox::gf2::GF2;
-use ldpc_toolbox::simulation::puncturing::Puncturer;
 use ldpc_toolbox::sparse::SparseMatrix;
 use num_traits::{One, Zero};
 use serde_json::{Value, json};
@@ -226,7 +225,9 @@ fn gen_punct(g: &mut Stream, n: usize) -> String {
             v.iter().map(|&b| if b { "1" } else { "0" }).collect::<Vec<_>>().join(",")
         }
         9 => "1,1,1,1,1,1,1".to_string(), // may not divide n
-        _ => g.pick(&["1,2", "1,,0", "a", "1;0", " 1,0", "1,0,", ",", "true,false", "10", "0,0", "1,1,x", "1, 1, 0", "110", ",1", "1,0,1,", "01"]).to_string(),
+        // (also fields that a numeric parse would accept but the pattern syntax does not: seeded
+        // change C19-r7-1 reads the fields with `parse::<u8>()`)
+        _ => g.pick(&["1,2", "1,,0", "a", "1;0", " 1,0", "1,0,", ",", "true,false", "10", "0,0", "1,1,x", "1, 1, 0", "110", ",1", "1,0,1,", "01", "1,+1", "+1,0", "01,1", "1,00", "1,1,+0", "001,1"]).to_string(),
     }
 }
 
@@ -246,7 +247,13 @@ fn gen_content(g: &mut Stream, for_encoder: bool) -> (Vec<u8>, String) {
         _ => Tail::Invertible,
     };
     let mut m = random_code(g, k, r, tail, 2);
-    if !for_encoder && g.chance(1, 6) {
+    if g.chance(1, 40) {
+        // a long code: its alist text is well beyond any small fixed buffer (seeded change
+        // C19-r7-2 cuts strings at PATH_MAX = 4096 bytes)
+        let k = 150 + g.below(250) as usize;
+        let r = 2 + g.below(4) as usize;
+        m = random_code(g, k, r, Tail::Staircase, 2);
+    } else if !for_encoder && g.chance(1, 6) {
         // a decoder takes any parity-check matrix, also one with redundant checks (as many or
         // more rows than columns); seeded change C19-r5-3 rejects those in the C constructor only
         let cols = 3 + g.below(8) as usize;
@@ -613,7 +620,21 @@ impl Exec {
                 let widened: Vec<f64> = if *f32 { llrs.iter().map(|&x| f64::from(x as f32)).collect() } else { llrs.clone() };
                 let dep = match &m.pattern {
                     None => widened.clone(),
-                    Some(p) => Puncturer::new(p).depuncture(&widened).map_err(|e| format!("reference depuncture failed: {}", e))?,
+                    // the harness's own depuncturing (block i of the pattern kept or erased), not the
+                    // library's: the wrapper and a reference that share a helper share its defects
+                    // (seeded change C19-r7-3 loses the last kept block inside Puncturer::depuncture)
+                    Some(p) => {
+                        let b = n / p.len();
+                        let mut out = vec![0.0f64; n];
+                        let mut src = 0;
+                        for (blk, &keep) in p.iter().enumerate() {
+                            if keep {
+                                out[blk * b..(blk + 1) * b].copy_from_slice(&widened[src..src + b]);
+                                src += b;
+                            }
+                        }
+                        out
+                    }
                 };
                 let mut fresh = m.imp.build_decoder(m.h.clone());
                 let want = match dstsim::quiet(|| std::panic::catch_unwind(std::panic::AssertUnwindSafe(|| fresh.decode(&dep, *max_iter as usize)))) {
@@ -675,11 +696,15 @@ impl Exec {
                 let enc = Encoder::from_h(&m.h).map_err(|e| format!("reference encoder: {}", e))?;
                 let msg = ndarray::Array1::from_iter(bits.iter().map(|&b| if b == 1 { GF2::one() } else { GF2::zero() }));
                 let cw = enc.encode(&msg);
-                let cw = match &m.pattern {
-                    None => cw,
-                    Some(p) => Puncturer::new(p).puncture(&cw).map_err(|e| format!("reference puncture failed: {}", e))?,
+                let full: Vec<u8> = cw.iter().map(|x| u8::from(x.is_one())).collect();
+                let want: Vec<u8> = match &m.pattern {
+                    None => full,
+                    // (own puncturing, for the same reason)
+                    Some(p) => {
+                        let b = full.len() / p.len();
+                        full.chunks(b).zip(p.iter()).filter(|(_, keep)| **keep).flat_map(|(c, _)| c.iter().copied()).collect()
+                    }
                 };
-                let want: Vec<u8> = cw.iter().map(|x| u8::from(x.is_one())).collect();
                 let mut out = vec![0xAAu8; want.len() + 4];
                 unsafe { ldpc_toolbox_encoder_encode(*ptr, out.as_mut_ptr(), want.len(), bits.as_ptr(), bits.len()) };
                 stats.inc("encode calls");
